@@ -458,6 +458,7 @@ func checkC10(c *Ctx) {
 				fill = append(fill, tfValC10(val.Field(k)))
 			}
 			req := fmt.Sprintf("tf reverse %s %s { %s } %d %s", chainArg, fields, strings.Join(fill, " "), len(entries), strings.Join(entries, " "))
+			req = strings.Join(strings.Fields(req), " ") // (a translated type without fields has an empty value list)
 			var out reflect.Value
 			var rerr error
 			pn := catch(func() { out, rerr = tf.ReverseTranslate(val) })
